@@ -17,9 +17,9 @@ CHECKS = {
  "C04": ("exploration", "property-based testing; f64 margin oracle over the decoded dump + search_k=1 self lookup",
          "For every generated built index every item is checked against every non-degenerate plane above it (independent f64 margin with forward error bound), and the smallest-budget self lookup must find items that some tree separates decisively.", "Planes with |margin| below the rounding bound are exempt (wider than the property's exact-zero exemption).", "4 C04"),
  "C05": ("exploration", "stateful property-based testing vs HashMap model (bit-exact)",
-         "Histories with arbitrary f32 bit patterns and ids over the whole u32 range; after every op the writer API (contains/item_vector/iter/is_empty/del result) and after every committed build the reader API must equal the model bit for bit (sign pattern for quantised metrics).", "-", "4 C05"),
+         "Histories with arbitrary f32 bit patterns, ids over the whole u32 range and dimensions 1-130 (plus 300-3000 in a second tier); after every op the writer API (contains/item_vector/iter/is_empty/del result) and after every committed build the reader API must equal the model bit for bit (sign pattern for quantised metrics).", "-", "4 C05"),
  "C06": ("exploration", "stateful property-based testing vs a 2-bit (built, stale) state machine, checked after every single step",
-         "Step scripts with all 13 operation kinds at every position relative to the last build; after each step need_build and Reader::open (built metric + another metric) must answer exactly per the model, in the write txn and from fresh read txns.", "State between a cancelled build and its abort is C10's, not judged here; clear on an empty index unconstrained.", "4 C06"),
+         "Step scripts with all 13 operation kinds at every position relative to the last build, run with a fresh Writer per call or one Writer value kept across transactions, plus scripts with > 4096 pending updates; after each step need_build and Reader::open (built metric + another metric) must answer exactly per the model, in the write txn and from fresh read txns.", "State between a cancelled build and its abort is C10's, not judged here; clear on an empty index unconstrained.", "4 C06"),
  "C07": ("exploration", "stateful property-based testing; byte-for-byte differential of raw dumps of passive indexes",
          "Interleaved scripts on 2-3 (mostly adjacent / extreme) indexes: the raw key/value bytes of every other index are identical before and after each step on the active one.", "-", "4 C07"),
  "C14": ("exploration", "property-based testing over build configurations; poll-count termination oracle + walker + brute force",
@@ -49,7 +49,7 @@ CHECKS.update({
  "C09": ("fault_enumeration", "crash-point enumeration: child process parked at an enumerated callback / operation / commit and SIGKILLed, parent reopens and compares with the acknowledged versions' models",
          "Every callback of one build per history (plus sampled ones), operation boundaries and commit windows are kill points; after each kill the reopened environment must equal the last acknowledged (or in-flight) version, pass walker and exact search, and be writable; chains resume to the end.", "Process death only: page cache survives, no torn writes.", "4 C09"),
  "C10": ("fault_enumeration", "fault enumeration: cancel-at-n for every n of the complete build's polls, LMDB map-size ladder, unusable temp dirs, fd/temp-file census",
-         "For generated states with pending insertions and deletions, the build is cancelled at every poll index; it must return BuildCancelled (or Ok with a valid index if never polled again), never panic; abort restores the raw dump byte for byte; retry validates; MapFull and io errors are reported as such; no fd or temp file leaks.", "Monotone callbacks; ENOSPC/EIO on temp files not injectable here.", "4 C10"),
+         "For generated states with pending insertions and deletions, the build is cancelled at every poll index (and once more on a builder value that is then reused for the retry); it must return BuildCancelled (or Ok with a valid index if never polled again), never panic; abort restores the raw dump byte for byte; retry validates; MapFull and io errors are reported as such; no fd or temp file leaks.", "Monotone callbacks; ENOSPC/EIO on temp files not injectable here.", "4 C10"),
 })
 
 CHECKS.update({
